@@ -25,6 +25,12 @@ META = {'C01': {'text': 'Model-based stateful property testing: random histories
          'note': 'Trusts the reference model and the shared predicate evaluator (the same Go function evaluates the predicate for the model and '
                  'inside CreateIndex, on independently decoded values).',
          'technique': 'model-based stateful property testing (rapid) with reference-model oracle, on primary, stream replica and restored snapshot'},
+ 'C04': {'text': "Grammar-based query generation over model-generated data layouts; every query's selection, iteration order and all aggregates are "
+                 'compared with an independent set-algebra evaluator. Exploration.',
+         'design_ref': 'DESIGN.md §6 C04',
+         'note': "Trusts the reference model's set algebra and the shared predicate functions (the same Go predicate is given to the filter and to "
+                 'the model, on independently converted values).',
+         'technique': 'grammar-based property testing (rapid) with differential oracle against a naive evaluator'},
  'C05': {'text': 'Generated-input search over the commit package only: every short op sequence over an 80-letter alphabet is enumerated exhaustively '
                  'and long sequences are drawn with rapid; each is compared op-for-op with the written list through every reader, Clone, the '
                  'buffer/commit codecs, Log append/range and the merge->put swap pass. Exploration, not proof: sequences beyond the bounds are '
